@@ -100,11 +100,14 @@ where
 
   pub fn sink_complete(&self, serial: &i32) {
     if self.subscriber.is_subscribed() {
-      let done_all = {
+      let (removed, done_all) = {
         let mut observers = self.unscribers.write().unwrap();
-        observers.remove(serial);
-        observers.len() == 0
+        let removed = observers.remove(serial);
+        (removed, observers.len() == 0)
       };
+      if let Some(o) = removed {
+        o.call(());
+      }
       if done_all {
         self.subscriber.complete();
         self.finalize();
